@@ -77,11 +77,11 @@ class C12(HistoryProperty):
     TECHNIQUE = "deterministic simulation with fault injection: for each seeded history, an exception of a seed-chosen type is injected at every (sampled: all up to a cap) invocation of a user callable of the fault-free run; oracles on the escaping exception and on the rest of the history vs. the same history without the failed op"
     LEVEL_TEXT = (
         "Crash-point enumeration: per sampled (program, history) the fault-free run lists every invocation of a body / callback / "
-        "effect / predicate / step / factory / bind function; one run per listed invocation (all of them up to the tier's cap) "
+        "effect / predicate / step / factory / bind function / user-defined leaf; one run per listed invocation (all of them up to the tier's cap) "
         "injects an exception there (9 exception types incl. KeyError, LookupError, StopIteration, AttributeError). Oracles: whatever "
         "escapes evaluate() is an EvaluationError whose source is the object evaluate() was called on and whose __cause__ chain ends in "
         "a concrete cause (the injected instance, or a missing-key / unmatched-switch error naming an absent key), never a raw "
-        "exception or a cause-less generic error; when the injected exception itself surfaced, every later outcome equals the outcome "
+        "exception or a cause-less generic error, and for a failing user-defined leaf the chain names that leaf; when the injected exception itself surfaced, every later outcome equals the outcome "
         "of the same history with the failed op deleted, and re-evaluating the same dictionary right away equals the fault-free twin "
         "(progress within one op once faults stop). Thorough adds multi-fault plans."
     )
